@@ -19,7 +19,7 @@ def opt(n) -> str:
 
 def lst(items) -> str:
     items = list(items)
-    return ",".join(items) if items else "-"
+    return ",".join(items) if items else "."
 
 
 def b01(x) -> str:
